@@ -246,12 +246,15 @@ Project(m, v) ==
 \* below what a time_point holds; that one case is outside the lemma for mode "floor")
 RoundtripLemma(m) ==
     \A mode \in Modes :
+        \* (the two modes give the same bytes unless the expiry is pre-epoch with a fraction)
+        (mode = "trunc" \/ RoundSec(m.exp, "floor") # RoundSec(m.exp, "trunc")) =>
         LET e == Encode(m, mode) IN
         IF ~Representable(m) THEN ~e.ok
         ELSE e.ok /\ (SecInRange(RoundSec(m.exp, mode)) =>
                         LET d == Decode(e.uri) IN d.ok /\ Norm(d.m, mode) = Norm(m, mode) /\ Same(d.m, m))
+\* the older layouts (version 4 is the round trip above)
 VersionLemma(m) ==
-    \A v \in 1..4 : LET d == Decode(Uri(Layout(m, v, "trunc")))
+    \A v \in 1..3 : LET d == Decode(Uri(Layout(m, v, "trunc")))
                     IN Representable(m) => d.ok /\ d.m = Norm(Project(m, v), "trunc")
 \* every strict prefix of a valid layout is refused, and nothing outside the buffer is read
 TruncationLemma(m) ==
